@@ -124,5 +124,30 @@ func (e *Env) Cost(ctx context.Context, name, id string, requires map[string]any
 	return 1000 + w, nil
 }
 
+// Populate3 is Populate for the three required fields of Req3 / MultiReq3.
+func (e *Env) Populate3(ctx context.Context, name string, rep map[string]any, set func(qty int, label string, ratio float64)) error {
+	if _, err := e.Call1(ctx, name, idOf(rep)); err != nil {
+		return err
+	}
+	q, l, r, err := Requires3(rep)
+	if err != nil {
+		return err
+	}
+	set(q, l, r)
+	return nil
+}
+
+// TotalOf is the body of the computed `total` field resolvers (computed_requires).
+func (e *Env) TotalOf(ctx context.Context, name, id string, requires map[string]any) (string, error) {
+	if _, err := e.Call1(ctx, name, id); err != nil {
+		return "", err
+	}
+	q, l, r, err := Requires3(requires)
+	if err != nil {
+		return "", err
+	}
+	return Total3(q, l, r), nil
+}
+
 // Str returns a pointer to s (optional String fields of the generated models).
 func Str(s string) *string { return &s }
